@@ -146,6 +146,10 @@ def generate(repo):
         elif m2:
             side = lambda w, e: ("s" if w == "self" else "other") + (".rangeStart" if e == "start" else ".rangeEnd")  # noqa: E731
             expand_steps.append(f"rangeStart := {side(m2.group(1), m2.group(2))}, rangeEnd := {side(m2.group(3), m2.group(4))}")
+        elif re.fullmatch(r"self\.range\.(start|end)\s*=\s*(self|other)\.range\.(start|end)", stmt):
+            m3 = re.fullmatch(r"self\.range\.(start|end)\s*=\s*(self|other)\.range\.(start|end)", stmt)
+            expand_steps.append(("rangeStart" if m3.group(1) == "start" else "rangeEnd") + " := " +
+                                ("s" if m3.group(2) == "self" else "other") + (".rangeStart" if m3.group(3) == "start" else ".rangeEnd"))
         else:
             raise ValueError(f"utils.rs Span::expand: unrecognised statement {stmt!r}")
 
@@ -191,7 +195,7 @@ def generate(repo):
     out.append("")
     out.append("/-- utils.rs `Span::expand(&mut self, other)`, one record update per Rust statement, in order -/")
     out.append("def spanExpand (self other : Lexer.Span) : Lexer.Span :=\n" +
-               "".join(f"  let s : Lexer.Span := {{ {'self' if i == 0 else 's'} with {st} }}\n" for i, st in enumerate(expand_steps)) + "  s")
+               "  let s : Lexer.Span := self\n" + "".join(f"  let s : Lexer.Span := {{ s with {st} }}\n" for st in expand_steps) + "  s")
     out.append("")
     out.append("/-- tera.rs `set_delimiters`: `delimiters.validate()?` comes before `self.delimiters = delimiters` -/")
     out.append(f"def setDelimsValidatesFirst : Bool := {str(set_delims_validates_first).lower()}")
